@@ -131,13 +131,20 @@ theorem spec_rule_consistent : ∀ s : Slot, specTail s = specTailKey s.key := b
   have h : Slot.all.all (fun s => specTail s == specTailKey s.key) = true := by decide +kernel
   simpa using Slot.forall_of_all h s
 
-/-- the slots whose visit opens a table of the construct's own (`opensTable`, used by the marker's name lookup) are the
-ones for which the table says so (`scope` column: the block's / the comprehension's table is handed down) -/
-theorem opens_table_consistent : ∀ s : Slot, opensTable s = ["seq_value.stab", "listcomp_value.stab"].contains (refScope s) := by
-  intro s
-  have h : Slot.all.all (fun s => opensTable s == ["seq_value.stab", "listcomp_value.stab"].contains (refScope s)) = true := by
-    decide +kernel
-  simpa using Slot.forall_of_all h s
+/-- the slots whose visit may open a table of the construct's own (`mayOpen`; `opensTable` is `mayOpen` plus, for record
+guards, "the guard binds names") are the ones for which the regenerated table says so (`scope` column: the block's, the
+comprehension's, the record guard's table is handed down) -/
+theorem opens_table_consistent :
+    (∀ s : Slot, mayOpen s = ["seq_value.stab", "listcomp_value.stab", "match.match_guards[].guard_record.guard.stab",
+        "iflet_value.guard_record.stab"].contains (refScope s)) ∧
+    (∀ e s i, opensTable e s i = true → mayOpen s = true) := by
+  constructor
+  · intro s
+    have h : Slot.all.all (fun s => mayOpen s == ["seq_value.stab", "listcomp_value.stab", "match.match_guards[].guard_record.guard.stab",
+        "iflet_value.guard_record.stab"].contains (refScope s)) = true := by decide +kernel
+    simpa using Slot.forall_of_all h s
+  · intro e s i h
+    cases s <;> simp_all [opensTable, mayOpen]
 
 theorem refRows_at_slot : ∀ s : Slot,
     (match refRows[slotIdx s]? with | some r => r.pass | none => Pass.add) = refTab s := by
@@ -222,6 +229,19 @@ theorem marker_complete (tab : Slot → Pass) (h : ∀ s, specTail s = true → 
       · exact hscope h1
     simp [isSelfCall, hne, hnb]
 
+/-- **marker_sound, the self test** (holds since fix f0e3e9c).  For a sound table every marked node is a self call in tail
+position by the RULE: besides `marker_sound`, the function's name is shadowed by nothing in lexical scope at the call — not by
+a parameter, not by an item of an enclosing block, not by a name a `match` arm or `if let` binds.  With `marker_complete`:
+for a sound and complete table, marked ⇔ `SelfTailCall`. -/
+theorem marker_sound_self (tab : Slot → Pass) (h : TabSound tab) (fn : Func) (p : Path)
+    (hm : markedInBody tab fn p = true) : SelfTailCall fn p := by
+  obtain ⟨htp, _⟩ := marker_sound tab h fn p hm
+  obtain ⟨c, hsub, _, hself⟩ := (markedAt_iff tab fn.name p _ _ _ _).mp hm
+  obtain ⟨args, hc, hne, hns⟩ := isSelfCall_spec hself
+  refine ⟨htp, hne, ?_, ?_, args, by rw [hsub, hc]⟩
+  · intro hin; exact hns (seenAlong_mono p _ _ _ _ hin)
+  · intro hin; exact hns (tailScope_seen p _ _ _ htp.2 _ hin)
+
 /-! ### … instantiated with the table of the C code -/
 
 /-- a path through tail children and function expressions of calls -/
@@ -251,6 +271,19 @@ theorem marker_sound_c_partial (fn : Func) (p : Path) (hm : markedInBody cTab fn
   refine ⟨⟨hsome, hstep⟩, ⟨args, by rw [hsub, hc]⟩, ?_⟩
   intro hno
   exact ⟨hsome, fun st hst => (hstep st hst).resolve_right (hno st hst)⟩
+
+/-- **the self test of tailrec.c** (full since fix f0e3e9c): a call tailrec.c retags along tail children is a call of the function
+ITSELF — nothing in lexical scope, in particular no name bound by a `match` arm or `if let`, shadows the function's name. -/
+theorem marker_sound_self_c (fn : Func) (p : Path) (hm : markedInBody cTab fn p = true)
+    (hno : ∀ st ∈ p, st.1 ≠ Slot.callFn) : SelfTailCall fn p := by
+  obtain ⟨_, ⟨args, hargs⟩, htp⟩ := marker_sound_c_partial fn p hm
+  have htp := htp hno
+  rw [cTab_eq_refTab] at hm
+  obtain ⟨c, hsub, _, hself⟩ := (markedAt_iff refTab fn.name p _ _ _ _).mp hm
+  obtain ⟨args', hc, hne, hns⟩ := isSelfCall_spec hself
+  refine ⟨htp, hne, ?_, ?_, args, hargs⟩
+  · intro hin; exact hns (seenAlong_mono p _ _ _ _ hin)
+  · intro hin; exact hns (tailScope_seen p _ _ _ htp.2 _ hin)
 
 /-- **marker_complete for tailrec.c** (full): every self call in tail position is retagged -/
 theorem marker_complete_c (fn : Func) (p : Path) (hs : SelfTailCall fn p) : markedInBody cTab fn p = true := by
@@ -358,6 +391,29 @@ example : SelfTailCall exLoop exPath := ⟨by decide, by decide, by decide, by d
 example : markedInBody cTab (.mk 2 "f" [] .func (.call (.call (.var "f") []) []) []) [(.callFn, 0)] = true ∧
     markedInBody specTab (.mk 2 "f" [] .func (.call (.call (.var "f") []) []) []) [(.callFn, 0)] = false := by
   rw [cTab_eq_refTab]; decide
+
+/-- `func go(o : Op) -> int { match o { Op::Apply(go) -> go(1, 2, 3); Op::Stop -> 0; } }`: the arm calls the function the
+guard BINDS (three parameters), not `go` itself (one parameter) -/
+def exShadow : Func :=
+  .mk 3 "go" [{ name := "o", ty := .rcd }] .int
+    (.seq [.expr (.matchE (.var "o")
+      [.recd "Op" "Apply" ["go"] (.call (.var "go") [.lit (.int 1), .lit (.int 2), .lit (.int 3)]),
+       .item "Op" "Stop" (.lit (.int 0))])]) []
+
+/-- **The lookup of the pinned tree took a `match` binding for the function** (defect f0e3e9c): with the guard's names
+hidden from the marker, the call of the bound `go` in the arm is retagged as a self last call — emitted with the bound
+function's three arguments over a one-parameter frame — although by the rule it is no self call; with the guard's table
+handed down (the repaired code, `cTab`) it is not marked. -/
+theorem pinned_scope_marks_match_binding_counterexample :
+    markedInBodyPinned refTab exShadow [(.seqLastExpr, 0), (.armRecd, 0)] = true ∧
+    ¬ SelfTailCall exShadow [(.seqLastExpr, 0), (.armRecd, 0)] ∧
+    markedInBody cTab exShadow [(.seqLastExpr, 0), (.armRecd, 0)] = false := by
+  refine ⟨by decide, ?_, by rw [cTab_eq_refTab]; decide⟩
+  intro h
+  exact h.2.2.2.1 (by decide)
+
+example : markedInBody specTab exLoop exPath = true ∧ SelfTailCall exLoop exPath :=
+  ⟨by decide, marker_sound_self specTab specTab_sound exLoop exPath (by decide)⟩
 
 /-- control reaches `7` in `true ? { 7 } : 8` -/
 example : Reach {} 3 [] {} (.cond (.lit (.bool true)) (.seq [.expr (.lit (.int 7))]) (.lit (.int 8)))
